@@ -26,7 +26,7 @@ B(k) == (k * TN) \div TD
 
 \* ------------------------------------------------------------------ input shapes
 \* a scaffold shape is a sequence of <<kind, len>>: "+" / "-" contig, "g" scaffold-type gap, "h" contig-type gap
-LenPool == {1, 2, ErrLen, Margin + 1, 2 * Margin + 3, 2 * Margin + ErrLen + 4}
+LenPool == {1, 2, ErrLen, 2 * ErrLen - 1, Margin + 1, 2 * Margin + 3, 2 * Margin + ErrLen + 4}
 GapPool == {1, ErrLen, 200}
 C(kd, n) == <<kd, n>>
 Big == 2 * Margin + ErrLen + 4
@@ -35,7 +35,14 @@ Mid == 2 * Margin + 3
 \* (d shifts the chain against the texel grid, so that some texel boundary splits the second tiny contig into two parts shorter than ErrLen)
 TinyChain(d) == << <<C("+", Big + d), C("g", 2 * ErrLen), C("+", MaxI(1, ErrLen - 2)), C("g", 2 * ErrLen), C("+", ErrLen + 1), C("g", 2 * ErrLen), C("+", Mid),
                     C("g", 2 * ErrLen), C("+", Big)>> >>
+\* a scaffold one base short of KR + 1 texels, where texel KR + 1 happens to be ErrLen bp wide (only fractional texel sizes have such a texel): shown
+\* with KR texels, the bases the map does not show number exactly ErrLen, and the last contig (one more) keeps a single base inside the map
+RoundTexels == {k \in 3..40 : B(k + 1) - B(k) = ErrLen}
+KR == IF RoundTexels = {} THEN 0 ELSE CHOOSE k \in RoundTexels : \A j \in RoundTexels : k <= j
+EndRounding == IF KR = 0 THEN << <<C("+", Big), C("h", 1), C("+", ErrLen + 1)>> >>
+               ELSE << <<C("+", B(KR + 1) - ErrLen - 2), C("h", 1), C("+", ErrLen + 1)>> >>
 FixedShapes == {
+   EndRounding,
    << <<C("+", Big)>> >>,
    << <<C("-", Big)>> >>,
    << <<C("+", Big), C("g", 200), C("+", Mid)>> >>,
